@@ -319,6 +319,47 @@ func ruleLONGESTPATH(c *Ctx) {
 			c.Lost(rule, key+":all-vertices", "no loop calling the dfs closure found")
 		}
 	}
+	// (d) every successor is explored: in dfs's loop over graph[i] the recursive call lies on every
+	// path through the body (a successor that is skipped - a self-loop, say - is a cycle unnoticed)
+	{
+		found := false
+		for _, lp := range naturalLoops(dfs) {
+			var callB *ssa.BasicBlock
+			for b := range lp.Body {
+				for _, ins := range b.Instrs {
+					call, ok := ins.(*ssa.Call)
+					if !ok {
+						continue
+					}
+					if g := resolveCallee(call); g == dfs {
+						callB = b
+					} else if ld, ok := call.Call.Value.(*ssa.UnOp); ok && ld.Op == token.MUL {
+						if fv, ok := ld.X.(*ssa.FreeVar); ok && fv.Name() == "dfs" {
+							callB = b
+						}
+					}
+				}
+			}
+			if callB == nil {
+				continue
+			}
+			found = true
+			skipped := false
+			for _, sc := range lp.Header.Succs {
+				if lp.Body[sc] && sc != callB && reachesWithout(sc, lp.Header, callB) {
+					skipped = true
+				}
+			}
+			if skipped {
+				c.Bad(rule, key+":all-successors", callB.Instrs[0].Pos(), "the loop over the successors of a vertex can skip the recursive call for some successor: an edge that is never followed (a self-loop, for one) is a cycle that goes unnoticed, and a path is returned for a cyclic graph")
+			} else {
+				c.Ok(rule, key+":all-successors", callB.Instrs[0].Pos(), "dfs descends into every successor")
+			}
+		}
+		if !found {
+			c.Lost(rule, key+":all-successors", "no loop with the recursive call found in the dfs closure")
+		}
+	}
 	// (b) in LongestPath: a return of nil governed by the cycle flag dominates the path loop
 	nilRet := false
 	for _, b := range f.Blocks {
